@@ -1002,3 +1002,27 @@ Proof.
   eexists _, _. split; [vm_compute; reflexivity|]. split; [|vm_compute; reflexivity].
   intros (_ & _ & H). vm_compute in H. discriminate H.
 Qed.
+
+(* ---- the case interpreter's cut / alteration of a chain (ArchiveRun.cut_parts, alter_parts) are the chains of
+   the theorems above ---------------------------------------------------------------------------------------- *)
+From PNA Require ArchiveRun.
+
+Lemma nth_app_exact {A} (a : list A) x l d : nth (length a) (a ++ x :: l) d = x.
+Proof. rewrite app_nth2 by apply Nat.le_refl. rewrite Nat.sub_diag. reflexivity. Qed.
+
+Lemma cut_parts_chain n0 pre p later n :
+  ArchiveRun.cut_parts (chain_nl n0 pre ++ p :: later) (length pre) n = chain_nl n0 pre ++ [firstn n p].
+Proof.
+  unfold ArchiveRun.cut_parts. rewrite <- (chain_nl_length pre n0) at 1 2.
+  rewrite nth_app_exact, firstn_app_l, firstn_all by apply Nat.le_refl. reflexivity.
+Qed.
+
+Lemma alter_parts_chain n0 pre p later n m :
+  ArchiveRun.alter_parts (chain_nl n0 pre ++ p :: later) (length pre) n m = chain_nl n0 pre ++ xor_at p n m :: later.
+Proof.
+  unfold ArchiveRun.alter_parts. rewrite <- (chain_nl_length pre n0) at 1 2 3.
+  rewrite nth_app_exact, firstn_app_l, firstn_all by apply Nat.le_refl.
+  replace (skipn (S (length (chain_nl n0 pre))) (chain_nl n0 pre ++ p :: later)) with later; [reflexivity|].
+  rewrite skipn_app, skipn_all2 by lia.
+  replace (S (length (chain_nl n0 pre)) - length (chain_nl n0 pre))%nat with 1%nat by lia. reflexivity.
+Qed.
